@@ -1617,6 +1617,7 @@ start_property (GMarkupParseContext *context,
   const gchar *transfer;
   const gchar *setter;
   const gchar *getter;
+  const gchar *deprecated;
   GIrNodeProperty *property;
   GIrNodeInterface *iface;
 
@@ -1644,6 +1645,7 @@ start_property (GMarkupParseContext *context,
   transfer = find_attribute ("transfer-ownership", attribute_names, attribute_values);
   setter = find_attribute ("setter", attribute_names, attribute_values);
   getter = find_attribute ("getter", attribute_names, attribute_values);
+  deprecated = find_attribute ("deprecated", attribute_names, attribute_values);
 
   if (name == NULL)
     {
@@ -1677,6 +1679,7 @@ start_property (GMarkupParseContext *context,
 
   property->setter = g_strdup (setter);
   property->getter = g_strdup (getter);
+  property->deprecated = deprecated != NULL;
 
   parse_property_transfer (property, transfer, ctx);
 
